@@ -186,7 +186,7 @@ type c16Trial struct {
 	Observe bool   `json:"observe"`
 	Entry   string `json:"entry"` // Do, Execute, ExecutePlan
 	Plan    []bool `json:"plan"`
-	First   string `json:"first,omitempty"` // race: which of open/cancel the driver does first
+	First   string `json:"first,omitempty"`    // race: which of open/cancel the driver does first
 	DelayUs int    `json:"delay_us,omitempty"` // race: busy wait between the two (diversifies who wins)
 	Trace   string `json:"trace"`
 	Result  string `json:"result,omitempty"`
